@@ -1,5 +1,6 @@
 """Leaf-directory spill (C06, C02, C18): R-BUDGET, R-LEAFPTR, R-RESEEK, termination side condition."""
 from rulebase import *
+import absint
 from rules_writer import no_anchor, struct_field
 from rules_reader import unmut, is_call_to
 from rules_dir import SPEC, ENTRY
@@ -37,6 +38,8 @@ def norm_bound(cond, outcome):
         op = {"<": ">", "<=": ">=", ">": "<", ">=": "<="}[op]
     else:
         return None
+    if absint.narrowing_casts(c[2]) or absint.narrowing_casts(c[3]):
+        return None    # the measured length was narrowed before the comparison: the test bounds `len mod 2^k`, not `len`
     if length[0] != 0:
         K -= length[0]
         length = (0, length[1])
